@@ -25,7 +25,7 @@ from pyvc.models import FmtPiece, SymStr
 from pyvc.spec import Registry
 from pyvc.values import NativeMethod, Obj, Opaque, PList, SArr, Sym, fresh_name, to_z3, zint
 
-DEPENDS = ["C18"]  # read_swc relies on the verified contracts of reset_index_ / mark_roots_as_somas_
+DEPENDS = ["C18", "C05"]  # read_swc relies on the verified contracts of reset_index_ / mark_roots_as_somas_ / link_roots_to_nearest_ / is_single_root (C18) and sort_nodes_ (C05)
 
 FILE = "swcgeom/utils/file.py"
 IO = "swcgeom/core/swc_utils/io.py"
@@ -537,33 +537,88 @@ def register_read(R):
     names = get_names()
     NCOLS = names.cols()
 
-    # callees that are not under a verified contract are replaced, FOR THIS CARRIER ONLY (globals_override, nothing is
-    # registered for other properties), by assumed stand-ins: they may rewrite the table's contents (never its number
-    # of rows / its columns), are logged, and do nothing else
-    def stand_in(name, rewrites_df=False, keeps_root=False, returns_bool=False):
-        from pyvc.loops import havoc_value
-        from pyvc.values import Callback, fresh
+    # every callee is used through its VERIFIED contract: parse_swc (this module), mark_roots_as_somas_ / link_roots_to_nearest_ /
+    # reset_index_ / is_single_root (contracts/C18.py), sort_nodes_ (contracts/C05.py).  Their preconditions become obligations
+    # `read_swc/call:<callee>/pre/...` here and are discharged from read_swc's own preconditions on the FILE's table:
+    #   always                      every parent id names the id of some row (otherwise the real code leaves with a KeyError of the
+    #                               connectivity check: loud, but outside this contract)
+    #   fix_roots='nearest' or      the file describes a forest: ids pairwise distinct, no cycle (depth witness dp18, root function comp18)
+    #   sort_nodes=True
+    #   sort_nodes=True without     exactly one root row (sort_nodes_impl asserts it)
+    #   root repair
+    from types import SimpleNamespace
 
-        def model(eng, args, kwargs):
-            eng.assumptions.add(f"assumed-contract(local to read_swc): {name} " + ("rewrites only the contents of df" if rewrites_df else "is pure")
-                                + (" and keeps a root" if keeps_root else ""))
-            df = args[0]
-            eng.call_log.append((name, dict(df=df)))
-            if rewrites_df:
-                havoc_value(eng, df)
-            if keeps_root:
-                pid = df.cols[names.pid]
-                i = z3.Int(fresh_name("i"))
-                eng.assume(z3.Exists([i], z3.And(i >= 0, i < zint(df.n), z3.Select(pid.arr, i) == -1)))
-            return fresh("bool", name) if returns_bool else None
+    from contracts import C05 as K5
+    from contracts import C18 as K18
 
-        return Callback(name, model)
+    def file_table(E, f):
+        """the (id, pid) columns the file's rows describe, as a frame-like pair of arrays (lambda terms over the abstract fields)"""
+        key = ("file-table", f.get_id())
+        if key not in E.ghost:
+            j = z3.Int("jf02")
+            n = RCNT(f, NL(f))
+            E.ghost[key] = (SimpleNamespace(cols={"id": SArr(z3.Lambda([j], field(0, LINE(f, RLINE(f, j)), 0)), n, "int", name="file_id"),
+                                                  "pid": SArr(z3.Lambda([j], field(0, LINE(f, RLINE(f, j)), 6)), n, "int", name="file_pid")}, n=n), f)
+        return E.ghost[key][0]
 
-    STAND_INS = {
-        "sort_nodes_": stand_in("sort_nodes_", rewrites_df=True),  # C05 owns its functional contract
-        "link_roots_to_nearest_": stand_in("link_roots_to_nearest_", rewrites_df=True, keeps_root=True),  # C18 bounded stand-in
-        "is_single_root": stand_in("is_single_root", returns_bool=True),  # only feeds a warning
-    }
+    def needs_forest(v):
+        return v["fix_roots"] == "nearest" or bool(v["sort_nodes"])
+
+    def wanted_pre(v):
+        out = ["every-parent-id-names-a-row"]
+        if needs_forest(v):
+            out += ["ids-pairwise-distinct-and-never-the-marker", "no-cycle(dp18-is-the-depth)", "comp18-is-the-row-of-the-root"]
+        return out
+
+    def pre_table(which):
+        def f(E, v, o):
+            if which not in wanted_pre(v):
+                return True
+            return K18.forest_pre(E, file_table(E, v["swc_file"].z), which)
+
+        return (which + "(file)", f)
+
+    def pre_one_root_when_sorting_unrepaired(E, v, o):
+        if not (v["sort_nodes"] and v["fix_roots"] is False):
+            return True
+        T = K18.Table18(E, file_table(E, v["swc_file"].z))
+        a, b = z3.Int("a18"), z3.Int("b18")
+        return z3.ForAll([a, b], z3.Implies(z3.And(T.R(a), T.R(b), z3.Select(T.PID, a) == -1, z3.Select(T.PID, b) == -1), a == b))
+
+    def define_sort_ghosts(E, v):
+        """runs just before the first precondition of the call sort_nodes_(df) is emitted.  C05's contract of sort_nodes_ speaks about the
+        table through ghost symbols (P0 root row, posof row of an id, pp parent row, depth5 depth).  They occur nowhere else in this proof, so
+        they are DEFINED here by explicit terms over the table at hand (a definition by an explicit term cannot be inconsistent):
+            P0 := the first root row,  posof(k) := the last row carrying id k,  pp(p) := the row carrying p's parent id,
+            depth5(p) := the depth of p   -- dp18 (file forest) when no repair ran; dp18 + 1 outside the first tree after `somas`;
+                                             the depth witness of link_roots_to_nearest_'s contract after `nearest`."""
+        df = v["df"]
+        T = K18.Table18(E, df)
+        p, a, b = z3.Int("p02"), z3.Int("a18"), z3.Int("b18")
+        E.prove("read_swc/step/the-table-to-sort-has-a-root", z3.Exists([a], z3.And(T.R(a), z3.Select(T.PID, a) == -1)), "annotation")
+        r0 = K18._first_root(E, df)
+        marks, links = calls(E, "mark_roots_as_somas_"), calls(E, "link_roots_to_nearest_")
+        if links:
+            depth = z3.Select(E.ghost["link-witness"][1], p)
+        elif marks:
+            depth = K18.dp18(p) + z3.If(K18.comp18(p) != r0, 1, 0)
+        else:
+            depth = K18.dp18(p)
+            # no repair ran although one was requested: np.count_nonzero(pid == -1) > 1 was false.  Two root rows would count at least 2
+            # (induction on the table length: Lean `count_two`), so there is at most one.
+            for fcnt, mask in E.ghost.get("cnt-functions", []):
+                E.assume(z3.ForAll([a, b], z3.Implies(z3.And(0 <= a, a < b, b < T.n, to_z3(mask.get(a), "bool"), to_z3(mask.get(b), "bool")), fcnt(T.n) >= 2)))
+                E.assumptions.add("assumed-lemma:count-of-two-marked-positions-is-at-least-2 (induction on the array length) instantiated for the root-row mask in read_swc")
+        E.assume(K5.P0 == r0)
+        E.assume(z3.ForAll([p], K5.posof(p) == K18.lastrow(E, T.ID, T.n)(p)))
+        E.assume(z3.ForAll([p], K5.pp(p) == T.e(p)))
+        E.assume(z3.ForAll([p], K5.depth5(p) == depth))
+        E.assumptions.add("ghost definition (read_swc, at the call of sort_nodes_): C05's table witnesses P0 / posof / pp / depth5 are defined by explicit terms over the table handed to sort_nodes_")
+
+    def table_as_parsed(E, v, o):
+        """annotation after `df, comments = parse_swc(...)`: the parsed frame satisfies what was required of the file's table"""
+        df = v["df"]
+        return z3.And(*[K18.forest_pre(E, df, w) for w in wanted_pre(o)])
 
     def read_setup(fix_roots, sort_nodes, reset_index):
         def f(S):
@@ -620,7 +675,7 @@ def register_read(R):
         # the count the dispatch is based on is the number of parsed rows whose parent is -1
         cnt, pid0 = cnts[0], p["df0"].cols[names.pid]
         i = z3.Int(fresh_name("i"))
-        is_root_count = z3.And(cnt(0) == 0, z3.ForAll([i], z3.Implies(i >= 0, cnt(i + 1) == cnt(i) + z3.If(z3.Select(pid0.arr, i) == -1, 1, 0))))
+        is_root_count = z3.And(cnt(0) == 0, z3.ForAll([i], z3.Implies(i >= 0, cnt(i + 1) == cnt(i) + z3.If(z3.Select(pid0.arr, i) == -1, 1, 0)), patterns=[cnt(i + 1)]))
         several = cnt(zint(p["df0"].n)) > 1
         want_m = 1 if fr_ == "somas" else 0
         want_l = 1 if fr_ == "nearest" else 0
@@ -660,6 +715,46 @@ def register_read(R):
             out.append(z3.ForAll([j], z3.Implies(z3.And(j >= 0, j < zint(df.n)), z3.Select(df.cols[c].arr, j) == field(0, LINE(f, RLINE(f, j)), NCOLS.index(c)))))
         return z3.And(*out)
 
+    def post_repaired(which):
+        """C18: a root repair returns a single-rooted table that keeps the first root, every original edge and every node attribute
+        (ids / parent ids re-based on the first root's id when reset_index is on)"""
+        def f(E, v, o):
+            p = parsed(E)
+            if p is None:
+                return False
+            if o["sort_nodes"] or not (calls(E, "mark_roots_as_somas_") or calls(E, "link_roots_to_nearest_")):
+                return True
+            df, _ = v["result"]
+            d0 = p["df0"]
+            n = zint(d0.n)
+            key = ("first-root-of-the-parsed-table", d0.cols[names.pid].arr.get_id())
+            if key not in E.ghost:
+                E.ghost[key] = (K18._first_root(E, d0), d0)
+            r0 = E.ghost[key][0]
+            sel = z3.Select
+            shift = sel(d0.cols[names.id].arr, r0) if o["reset_index"] else z3.IntVal(0)
+            x = z3.Int("x02")
+            R_ = z3.And(x >= 0, x < n)
+            P0, P1 = d0.cols[names.pid].arr, df.cols[names.pid].arr
+            if which == "first-root-kept":
+                return z3.And(zint(df.n) == n, sel(P1, r0) == -1)
+            if which == "no-other-root":
+                # re-basing maps the id (first root's id - 1) to the marker -1 (DESIGN 9.3, recorded observation): "no other root" is claimed
+                # for files in which no row carries that id, e.g. whenever the first root carries the smallest id
+                hyp = z3.ForAll([x], z3.Implies(R_, sel(d0.cols[names.id].arr, x) != shift - 1)) if o["reset_index"] else z3.BoolVal(True)
+                return z3.Implies(hyp, z3.ForAll([x], z3.Implies(z3.And(R_, x != r0), sel(P1, x) != -1)))
+            if which == "every-original-edge-kept":
+                return z3.ForAll([x], z3.Implies(z3.And(R_, sel(P0, x) != -1), sel(P1, x) == sel(P0, x) - shift))
+            if which == "ids-and-attributes-kept":
+                out = [z3.ForAll([x], z3.Implies(R_, sel(df.cols[names.id].arr, x) == sel(d0.cols[names.id].arr, x) - shift))]
+                for c in NCOLS:
+                    if c not in (names.id, names.pid):
+                        out.append(z3.ForAll([x], z3.Implies(R_, sel(df.cols[c].arr, x) == sel(d0.cols[c].arr, x))))
+                return z3.And(*out)
+            raise KeyError(which)
+
+        return f
+
     def may_raise(E, v, o):
         f = v["swc_file"].z
         j = z3.Int(fresh_name("j"))
@@ -687,9 +782,11 @@ def register_read(R):
         prop="C02",
         variants=variants,
         lemmas=[axioms],
-        options=dict(globals_override=STAND_INS),
+        options=dict(asserts_after={"df": [("the-parsed-table-is-the-file's-table", table_as_parsed)]},
+                     hints={"call:sort_nodes_/pre/at-least-one-row": define_sort_ghosts}),
         returns=read_result,
-        requires=[("file-has-a-root-row", pre_root), ("row-ids-are-unsigned(regex fact: the id group is [0-9]+)", pre_ids)],
+        requires=[("file-has-a-root-row", pre_root), ("row-ids-are-unsigned(regex fact: the id group is [0-9]+)", pre_ids)]
+        + [pre_table(w) for w in K18.FOREST_PRE[1:]] + [("one-root-row-when-sorting-without-root-repair(file)", pre_one_root_when_sorting_unrepaired)],
         raises={"ValueError": ("only-for-a-bad-file-or-an-unknown-fix-mode", may_raise),
                 # at call sites: the file may also be unreadable (open() fails) -- never raised by the modelled body itself
                 "OSError": ("unreadable-source", lambda E, v, o: UNREADABLE(v["swc_file"].z))},
@@ -699,6 +796,10 @@ def register_read(R):
             ("sort-nodes-else-reset-index-else-neither", site(post_renumber)),
             ("no-other-call-touches-the-table(warnings-only-warn)", site(post_nothing_else)),
             ("attributes-are-what-the-rows-say", site(post_attributes)),
+            ("root-repair/first-root-kept", site(post_repaired("first-root-kept"))),
+            ("root-repair/no-other-root", site(post_repaired("no-other-root"))),
+            ("root-repair/every-original-edge-kept", site(post_repaired("every-original-edge-kept"))),
+            ("root-repair/ids-and-attributes-kept", site(post_repaired("ids-and-attributes-kept"))),
         ],
         notes="file abstract (see parse_swc); all 16 combinations of fix_roots x sort_nodes x reset_index as variants; "
               "precondition: the file has a row whose parent is -1 (reset_index_/mark_roots_as_somas_ need a root)",
@@ -740,14 +841,16 @@ def register_read(R):
         FROM_SWC,
         prop="C02",
         setup=from_setup,
-        requires=[("file-has-a-root-row", pre_root), ("row-ids-are-unsigned(regex fact: the id group is [0-9]+)", pre_ids)],
+        requires=[("file-has-a-root-row", pre_root), ("row-ids-are-unsigned(regex fact: the id group is [0-9]+)", pre_ids),
+                  ("every-parent-id-names-a-row(file)", lambda E, v, o: K18.forest_pre(E, file_table(E, v["swc_file"].z), "every-parent-id-names-a-row"))],
         raises={"ValueError": ("only-when-the-source-is-bad-or-unreadable", lambda E, v, o: bad_source(v))},
         ensures=[
             ("a-tree-is-returned-only-for-a-clean-readable-source(no-error-swallowed)", lambda E, v, o: z3.Not(bad_source(v))),
             ("tree-is-built-from-exactly-the-table-and-comments-read", from_built),
             ("something-is-returned", lambda E, v, o: v["result"] is not None),
         ],
-        notes="any exception class read_swc may raise (ValueError for a bad file, OSError for an unreadable one) must leave as ValueError",
+        notes="any exception class read_swc may raise (ValueError for a bad file, OSError for an unreadable one) must leave as ValueError; "
+              "a parent id that names no row is outside the domain (the real code leaves with ValueError wrapping the KeyError of the connectivity check)",
     )
 
 
